@@ -121,6 +121,9 @@ func (h *NFSProcedureHandler) handleSetattr(body io.Reader, reply *RPCReply, aut
 		if sattr.Size > uint64(math.MaxInt64) {
 			return nfsErrorWithWcc(reply, NFSERR_INVAL), nil
 		}
+		if maxSize := h.server.handler.policy.Load().MaxFileSize; maxSize > 0 && sattr.Size > uint64(maxSize) {
+			return nfsErrorWithWcc(reply, NFSERR_FBIG), nil
+		}
 		if err := node.Truncate(int64(sattr.Size)); err != nil {
 			return nfsErrorWithWcc(reply, mapError(err)), nil
 		}
